@@ -101,6 +101,14 @@ def run(ctx):
     fact("term_pause_flushes", "Bool", lambda: "true" if "tickit_term_flush" in pa else "false")
     fact("term_resume_flushes", "Bool", lambda: "true" if "tickit_term_flush" in re_ else "false")
 
+    # tickit_term_printn returns early on a zero length (so that write_str's "0 means strlen" is not reached)
+    pn = func_body(term, "tickit_term_printn")
+    fact("printn_zero_len_returns", "Bool",
+         lambda: "true" if re.search(r"^\s*if\s*\(\s*(!\s*len|len\s*==\s*0)\s*\)\s*return\s*;", pn) else "false")
+    # tickit_term_resume re-sends the cached pen through the driver's chpen after the driver's resume
+    fact("term_resume_resends_pen", "Bool",
+         lambda: "true" if re.search(r"vtable->chpen\s*\)\s*\(\s*tt->driver\s*,\s*tt->pen\s*,\s*tt->pen\s*\)", re_) else "false")
+
     # ------------------------------------------------------------------ termdriver-xterm.c
     start = func_body(xterm, r"static\s+void\s+start")
     def start_fmts():
